@@ -61,6 +61,7 @@ def sweep(rng):
 
 def check_parsed(rec, text, big=False):
     """parse `text` on a fresh parser and run the print/re-parse oracle on the tree"""
+    MR.new_lineage()
     try:
         root = D.parse(text)
     except Exception:
